@@ -219,7 +219,7 @@ structure Guards (cfg : Cfg) (i : In) : Prop where
 
 theorem Reached.guards {cfg : Cfg} {i : In} (h : Reached cfg i) : Guards cfg i := by
   simp [Reached, sPre, sPreA, sOnly, sNode, sPick, pHead] at h
-  obtain ⟨h1, h2, _, _, _, _, _, h8, h9, ⟨h10, h10'⟩, _, h12, h13, _, _, h16, h17, _, _, _, _, _, h23, _⟩ := h
+  obtain ⟨h1, h2, _, _, _, _, _, _, h8, h9, ⟨h10, h10'⟩, _, h12, h13, _, _, h16, h17, _, _, _, _, _, h23, _⟩ := h
   exact ⟨h1, h2, h8, h9, h10, h10', h12, h13, h16, h17, h23⟩
 
 /-- the collected positions and their maximum -/
@@ -455,7 +455,7 @@ theorem emerge_only_on_splitbrain (cfg : Cfg) (i : In) (h : Step.writeEmerge ∈
     ∃ ps, i.positions = some ps ∧ findMostRecent ps = .splitBrain := by
   rw [performSwitchover_eq] at h
   simp [stages, sPre, sPreA, sOnly, sNode, sPick, pStages, pHead, pReset, pWritable, pEvents, mem_run_cons] at h
-  obtain ⟨_, _, _, _, _, _, _, _, _, ⟨h10, _⟩, _, _, h12⟩ := h
+  obtain ⟨_, _, _, _, _, _, _, _, _, _, ⟨h10, _⟩, _, _, h12⟩ := h
   obtain ⟨ps, hps⟩ := Option.isSome_iff_exists.mp h10
   refine ⟨ps, hps, ?_⟩
   simpa [psOf, hps] using h12
@@ -544,6 +544,7 @@ theorem splitbrain_aborts_counterexample :
 
 def segA (cfg : Cfg) (i : In) : List Step :=
   [.stopOptimization true] ++ (if i.turbo then [.turboPhase true] else []) ++
+    (if i.turbo then [.stopOptimization true] else []) ++
     ((workList i).map fun h => Step.freezeRO h (roOk i h)) ++
     ((workList i).filter (· != i.oldMaster)).map (fun h => Step.stopIO h ((pingOk i.cs h == some true) && i.io h)) ++
     [.quorumCheck (frozen i).length (qOk cfg i)]
@@ -749,5 +750,78 @@ theorem promoted_is_listed (cfg : Cfg) (i : In) (h : String) (ok : Bool)
     · rw [h2]; exact h3
   · rw [← h4]
     exact (frozen_spec i _ (hpos ps h2 p h3)).1
+
+/-! ### C19 (switchover clause): what precedes phase 1 -/
+
+/-- the steps before phase 1 of a run that gets that far -/
+def optPrefix (i : In) : List Step :=
+  Step.stopOptimization true :: (if i.turbo then [.turboPhase true, .stopOptimization true] else [])
+
+/-- phase 1 -/
+def sFreeze (i : In) : Stage := { ok := true, good := (workList i).map fun h => Step.freezeRO h (roOk i h) }
+
+/-- the stages after phase 1 -/
+def sAfterFreeze (cfg : Cfg) (i : In) : List Stage :=
+  (sPreA cfg i).drop 7 ++ ([sOnly i, sNode i, sPick cfg i] ++ pStages i (nmOf cfg i) (mrOf i))
+
+theorem stages_split_freeze (cfg : Cfg) (i : In) :
+    stages cfg i = (sPreA cfg i).take 6 ++ (sFreeze i :: sAfterFreeze cfg i) := by
+  simp [stages, sPre, sPreA, sFreeze, sAfterFreeze]
+
+theorem goods_before_freeze (cfg : Cfg) (i : In) : goods ((sPreA cfg i).take 6) = optPrefix i := by
+  cases h : i.turbo <;> simp [sPreA, optPrefix, h]
+
+theorem after_no_freeze (cfg : Cfg) (i : In) (x : String) (o : Bool) :
+    ∀ stg ∈ sAfterFreeze cfg i, Step.freezeRO x o ∉ stg.good ∧ Step.freezeRO x o ∉ stg.bad := by
+  simp [sAfterFreeze, sPreA, sOnly, sNode, sPick, pStages, pHead, pReset, pWritable, pEvents]
+
+theorem no_freeze_after (cfg : Cfg) (i : In) (x : String) (o : Bool) :
+    Step.freezeRO x o ∉ run (sAfterFreeze cfg i) := by
+  intro h
+  obtain ⟨stg, hm, hh⟩ := mem_run_stage h
+  obtain ⟨h1, h2⟩ := after_no_freeze cfg i x o stg hm
+  rcases hh with hh | hh
+  · exact h1 hh
+  · exact h2 hh
+
+/-- a `P`-step of `G ++ (M ++ R)`, where neither `G` nor `R` has any, lies in `M` -/
+theorem split_middle {P : Step → Prop} {G M R pre post : List Step} {x : Step}
+    (hG : ∀ s ∈ G, ¬ P s) (hR : ∀ s ∈ R, ¬ P s) (hx : P x)
+    (h : pre ++ x :: post = G ++ (M ++ R)) : ∃ f g, pre = G ++ f ∧ M = f ++ x :: g := by
+  rcases List.append_eq_append_iff.mp h with ⟨a', h1, h2⟩ | ⟨c', h1, h2⟩
+  · cases a' with
+    | nil =>
+      simp at h1 h2
+      cases M with
+      | nil => exact absurd hx (hR x (by simp at h2; rw [← h2]; simp))
+      | cons m M' => simp at h2; exact ⟨[], M', by simp [h1], by simp [h2.1]⟩
+    | cons y a'' =>
+      simp at h2
+      exact absurd hx (hG x (by rw [h1, ← h2.1]; simp))
+  · rcases List.append_eq_append_iff.mp h2 with ⟨a', h3, h4⟩ | ⟨c'', h3, h4⟩
+    · exact absurd hx (hR x (by rw [h4]; simp))
+    · cases c'' with
+      | nil => simp at h4; exact absurd hx (hR x (by rw [← h4]; simp))
+      | cons y c3 => simp at h4; exact ⟨c', c3, h1, by rw [h3, h4.1]⟩
+
+theorem before_freeze (cfg : Cfg) (i : In) (pre post : List Step) (h : String) (ok : Bool)
+    (hs : performSwitchover cfg i = pre ++ Step.freezeRO h ok :: post) :
+    ∃ f, pre = optPrefix i ++ f ∧ ∀ s ∈ f, ∃ x o, s = Step.freezeRO x o := by
+  have hm : Step.freezeRO h ok ∈ performSwitchover cfg i := by rw [hs]; simp
+  rw [performSwitchover_eq, stages_split_freeze] at hm
+  obtain ⟨hA, _⟩ := mem_run_append hm (by simp [sPreA])
+  have heq := performSwitchover_eq cfg i
+  rw [stages_split_freeze, run_append_ok hA, goods_before_freeze, hs, run_cons] at heq
+  simp only [sFreeze, if_true] at heq
+  have hG : ∀ s ∈ optPrefix i, ¬ ∃ x o, s = Step.freezeRO x o := by
+    cases ht : i.turbo <;> simp [optPrefix, ht]
+  have hR : ∀ s ∈ run (sAfterFreeze cfg i), ¬ ∃ x o, s = Step.freezeRO x o := by
+    rintro s hm ⟨x, o, rfl⟩
+    exact no_freeze_after cfg i x o hm
+  obtain ⟨f, g, h1, h2⟩ := split_middle (P := fun s => ∃ x o, s = Step.freezeRO x o) hG hR ⟨h, ok, rfl⟩ heq
+  refine ⟨f, h1, fun s hsf => ?_⟩
+  have : s ∈ (workList i).map fun h => Step.freezeRO h (roOk i h) := by rw [h2]; simp [hsf]
+  obtain ⟨x, _, rfl⟩ := List.mem_map.mp this
+  exact ⟨_, _, rfl⟩
 
 end SwitchoverLemmas
